@@ -639,6 +639,9 @@ class _SetOperation(Selectable, Term):  # type:ignore[misc]
 
     def get_sql(self, ctx: SqlContext) -> str:
         set_operation_template = " {type} {query_string}"
+        if ctx.dialect in (Dialects.MSSQL, Dialects.ORACLE):
+            # these dialects do not support GROUP BY a field alias - also inside operands built with other classes
+            ctx = ctx.copy(groupby_alias=False)
         # operands are parenthesised unless the builder opted out or the dialect being rendered is MySQL (whose
         # convention is not to), so a set operation built with the generic classes follows a MySQL statement it is nested in
         set_ctx = ctx.copy(
